@@ -238,6 +238,9 @@ def run_case(case):
                 continue
             text_result_check(m, list(args), got, want)
         elif isinstance(want, list):
+            if not isinstance(got, (list, tuple)):
+                res.viol("delegated_answer_differs", method=m, args=list(args), desc=desc, got=repr(got)[:100], expected=repr(want)[:100])
+                continue
             if [getattr(x, "s", x) for x in got] != want:
                 res.viol("delegated_list_text_differs", method=m, args=list(args), desc=desc, got=[getattr(x, "s", x) for x in got], expected=want)
                 continue
